@@ -103,6 +103,10 @@ type c3Net struct {
 	nm, nh   int
 	nd, nc   int
 	nt       int
+	tokShape []string
+	validate bool
+	valid    map[string]bool
+	issued   int
 	regs     map[string]c3Manifest // two-pull cases: the manifest served per model ("m<id>")
 	hook     func(req *http.Request) // called before anything else (may block: scripted interleavings)
 	cancel   context.CancelFunc // cancels the context PullModel was called with
@@ -115,6 +119,11 @@ func c3NewNet(c *c3Case, a *c3Attempt, models string) *c3Net {
 		chunks: map[string][][]c3Chunk{}, content: map[string][]byte{}, has: map[string]bool{}}
 	n.ms = append(n.ms, a.ms...)
 	n.tok = append(n.tok, a.tok...)
+	n.tokShape = append(n.tokShape, a.tokShape...)
+	n.validate, n.valid = a.validate, map[string]bool{}
+	if a.validate && len(n.ms) > 0 && n.ms[0].kind == "unauth" {
+		n.ms = n.ms[1:] // that 401 comes from the validation of the (missing) token
+	}
 	seen := map[string]bool{}
 	for _, l := range a.ls {
 		if seen[l.dig] { // the model's lookup takes the first entry
@@ -219,16 +228,34 @@ func (n *c3Net) RoundTrip(req *http.Request) (*http.Response, error) {
 	switch {
 	case host == c3AuthHost && path == "/token":
 		n.nt++
-		ok := true
+		ok, shape := true, ""
 		if len(n.tok) > 0 {
 			ok, n.tok = n.tok[0], n.tok[1:]
+			if len(n.tokShape) > 0 {
+				shape, n.tokShape = n.tokShape[0], n.tokShape[1:]
+			}
+		}
+		token := "tok"
+		if n.validate { // a registry that really issues and checks tokens
+			n.issued++
+			token = fmt.Sprintf("tok-%d", n.issued)
+			if ok {
+				n.valid[token] = true
+			}
+		}
+		if shape != "" {
+			status, body := c3RawToken(shape, token)
+			return c3Resp(req, status, nil, c3BytesBody(body)), nil
 		}
 		if ok {
-			return c3Resp(req, 200, nil, c3BytesBody([]byte(`{"token":"tok"}`))), nil
+			return c3Resp(req, 200, nil, c3BytesBody([]byte(`{"token":"`+token+`"}`))), nil
 		}
 		return c3Resp(req, 403, nil, c3BytesBody([]byte("TOKERR"))), nil
 	case host == c3RegHost && strings.Contains(path, "/manifests/"):
 		n.nm++
+		if resp := n.unauthorized(req); resp != nil {
+			return resp, nil
+		}
 		r := c3Reply{"pass", "served"}
 		if len(n.ms) > 0 {
 			r, n.ms = n.ms[0], n.ms[1:]
@@ -236,6 +263,12 @@ func (n *c3Net) RoundTrip(req *http.Request) (*http.Response, error) {
 		return n.generic(req, r, func(arg string) (*http.Response, error) {
 			if arg == "badjson" {
 				return c3Resp(req, 200, nil, c3BytesBody([]byte("<html>oops"))), nil
+			}
+			if strings.HasPrefix(arg, "badjson-") {
+				return c3Resp(req, 200, nil, c3BytesBody(c3RawManifest(strings.TrimPrefix(arg, "badjson-"), n.c.reg))), nil
+			}
+			if n.c.rawManifest != "" && n.regs == nil {
+				return c3Resp(req, 200, nil, c3BytesBody(c3RawManifest(n.c.rawManifest, n.c.reg))), nil
 			}
 			reg := n.c.reg
 			for k, m := range n.regs {
@@ -249,6 +282,9 @@ func (n *c3Net) RoundTrip(req *http.Request) (*http.Response, error) {
 		dig := path[strings.Index(path, "/blobs/sha256:")+len("/blobs/sha256:"):]
 		if req.Method == http.MethodHead {
 			n.nh++
+			if resp := n.unauthorized(req); resp != nil {
+				return resp, nil
+			}
 			r := c3Reply{"notfound", ""}
 			if n.has[dig] {
 				r = c3Reply{"pass", strconv.Itoa(len(n.content[dig]))}
@@ -264,6 +300,9 @@ func (n *c3Net) RoundTrip(req *http.Request) (*http.Response, error) {
 			})
 		}
 		n.nd++
+		if resp := n.unauthorized(req); resp != nil {
+			return resp, nil
+		}
 		r := c3Reply{"notfound", ""}
 		if n.has[dig] {
 			r = c3Reply{"pass", "redirect"}
@@ -355,6 +394,17 @@ func (n *c3Net) RoundTrip(req *http.Request) (*http.Response, error) {
 	return nil, errors.New("TOKNET unknown endpoint " + req.URL.String())
 }
 
+// unauthorized: in validating mode the registry answers 401 (with the well-formed challenge) to every request that
+// does not carry a bearer token issued in THIS attempt — tokens of earlier attempts are expired.
+func (n *c3Net) unauthorized(req *http.Request) *http.Response {
+	if !n.validate || n.valid[strings.TrimPrefix(req.Header.Get("Authorization"), "Bearer ")] {
+		return nil
+	}
+	resp := c3Resp(req, 401, nil, c3BytesBody([]byte("unauthorized")))
+	resp.Header["Www-Authenticate"] = []string{c3GoodChallenge}
+	return resp
+}
+
 func (n *c3Net) generic(req *http.Request, r c3Reply, pass func(arg string) (*http.Response, error)) (*http.Response, error) {
 	switch r.kind {
 	case "pass":
@@ -370,6 +420,8 @@ func (n *c3Net) generic(req *http.Request, r c3Reply, pass func(arg string) (*ht
 		return resp, nil
 	case "notfound":
 		return c3Resp(req, 404, nil, c3BytesBody([]byte("not found"))), nil
+	case "statusbig":
+		return c3Resp(req, 502, nil, c3BytesBody([]byte("REGERR "+strings.Repeat("x", 10<<20)))), nil
 	case "follow": // a redirect the client follows: the same URL again (same host, so the direct-URL policy follows it too)
 		return c3Resp(req, 307, map[string]string{"Location": req.URL.String()}, nil), nil
 	}
@@ -485,9 +537,9 @@ func c3ReadDisk(models string) *c3Disk {
 func c3ShowManifest(m *Manifest) string {
 	var ls []string
 	for _, l := range m.Layers {
-		ls = append(ls, fmt.Sprintf("%s/%d", c3Short(c3RefOf(l.Digest)), l.Size))
+		ls = append(ls, fmt.Sprintf("%s/%s", c3Short(c3RefOf(l.Digest)), c3SizeTok(l.Size)))
 	}
-	return fmt.Sprintf("l(%s)c(%s/%d)", strings.Join(ls, ","), c3Short(c3RefOf(m.Config.Digest)), m.Config.Size)
+	return fmt.Sprintf("l(%s)c(%s/%s)", strings.Join(ls, ","), c3Short(c3RefOf(m.Config.Digest)), c3SizeTok(m.Config.Size))
 }
 
 func c3Short(ref string) string {
@@ -595,8 +647,10 @@ func c3Classify(err error) string {
 		return "err:notfound"
 	case strings.Contains(s, "unexpected status code"):
 		return "err:direct-status"
-	case strings.Contains(s, "TOKERR"), strings.Contains(s, "TOKNET"):
-		return "err:auth"
+	case strings.Contains(s, "TOKERR"), strings.Contains(s, "TOKNET"),
+		strings.HasPrefix(s, "json: "), strings.HasPrefix(s, "invalid character"), strings.HasPrefix(s, "unexpected end of JSON"),
+		s == "EOF", s == "unexpected EOF":
+		return "err:auth" // outside the manifest (which is wrapped) only the token answer is decoded
 	case strings.Contains(s, "REGERR"):
 		return "err:http"
 	case strings.Contains(s, "NETERR"), strings.Contains(s, "stopped after 10 redirects"):
@@ -613,6 +667,8 @@ func c3PanicSite(msg string) string {
 		return "panic:empty-digest"
 	case strings.Contains(msg, "downloadChunk"):
 		return "panic:download-chunk"
+	case strings.Contains(msg, "server.PullModel"):
+		return "panic:pull-model"
 	}
 	return "panic:other"
 }
